@@ -619,6 +619,26 @@ func runC06(c *Ctx) {
 				revOK = src(st.Val, 1, "!")
 			case S + "MatchConfig.Tag":
 				tagOK = src(st.Val, 0, "$")
+				// delegated to the exec-side parser, whose tag is taken from the '$' prefix
+				if ex, ok := st.Val.(*ssa.Extract); ok && !tagOK && ex.Index == 0 {
+					if ci, ok := ex.Tuple.(*ssa.Call); ok && callName(ci) == relSeq+".parseExec" {
+						if pe := ci.Call.StaticCallee(); pe != nil {
+							tr := c.P.newTracer()
+							tr.throughCalls, tr.throughParams, tr.throughFields = false, false, false
+							for _, r := range returnsOf(pe) {
+								rv := returnedValues(r)
+								if len(rv) == 0 {
+									continue
+								}
+								for _, o := range tr.origins(rv[0]) {
+									if src(o, 0, "$") {
+										tagOK = true
+									}
+								}
+							}
+						}
+					}
+				}
 			}
 		})
 		c.check(revOK, "parse-negation", f.Pos(), "Reverse is set from the '!' prefix", "parseMatch does not take the negation flag from the '!' prefix")
